@@ -5,7 +5,7 @@ CONSTANTS
   MaxFrames = 2
   Sizes = {1}
   RelSizes = TRUE
-  MaxRandSize = 0
+  MaxRandPk = 0
   Rates <- RatesOne
   Starts <- StartsOne
   Deltas = {3000}
